@@ -87,7 +87,7 @@ def main ():
     if os.environ.get ('PMV_COVER'):
         # reach measurement (tools/reach.sh): which lines of the repository the workloads execute at all
         import coverage
-        cov = coverage.Coverage ( data_file = os.environ ['PMV_COVER'], data_suffix = True
+        cov = coverage.Coverage ( data_file = os.environ ['PMV_COVER'], data_suffix = True, branch = True
                                 , include = [os.path.join (os.environ.get ('PMV_REPO', '/repo'), 'mininec', '*.py')])
         cov.start ()
     common.repo ()
